@@ -562,11 +562,52 @@ fn families(quick: bool) -> Vec<LmFamily> {
     v
 }
 
+/// family TW: wide tableaux. n = 20..70 non-negative variables, 1..3 capacity rows; only a few columns
+/// (chosen at positions p and q, anywhere including beyond column 32 and in the last place) can improve the objective
+const WIDE_N: [usize; 7] = [20, 31, 32, 33, 34, 48, 70];
+fn wide_cases() -> Vec<(usize, usize, usize, usize, bool)> {
+    // (n, rows, p, q, max)
+    let mut out = vec![];
+    for &n in &WIDE_N {
+        for m in 1..=3usize {
+            let mut ps = vec![0, n / 2, n - 1];
+            if n > 32 {
+                ps.extend([31, 32, 33.min(n - 1)]);
+            }
+            ps.sort();
+            ps.dedup();
+            for &p in &ps {
+                for &q in &[p, (p + 7) % n, n - 1] {
+                    for max in [false, true] {
+                        out.push((n, m, p, q, max));
+                    }
+                }
+            }
+        }
+    }
+    out
+}
+fn wide_model(n: usize, m: usize, p: usize, q: usize, max: bool) -> LmSpec {
+    use crate::exact::Rel;
+    use crate::lm::{Dom, Row};
+    let vars: Vec<(String, Dom)> = (0..n).map(|j| (format!("x{j:02}"), Dom::NonNeg)).collect();
+    // improving columns: p (rate 3) and q (rate 2); every other column makes the objective worse
+    let sign = if max { 1.0 } else { -1.0 };
+    let obj: Vec<f64> = (0..n).map(|j| if j == p { 3.0 * sign } else if j == q { 2.0 * sign } else { -sign * (1.0 + (j % 3) as f64) }).collect();
+    let mut rows = vec![];
+    for r in 0..m {
+        // capacity rows with different weights on p and q, so that the ratio test decides which one leaves
+        let coef: Vec<f64> = (0..n).map(|j| if j == p { 1.0 + r as f64 } else if j == q { 2.0 } else { ((j + r) % 2) as f64 }).collect();
+        rows.push(Row { coef, rel: Rel::Le, rhs: 4.0 + 2.0 * r as f64, name: String::new() });
+    }
+    LmSpec { vars, rows, obj, offset: 0.0, sense: if max { Sense::Max } else { Sense::Min } }
+}
+
 pub fn run(mut run: Run) -> ! {
     crate::core::silence_panics();
     run.isolate = true;
     run.case_timeout_s = 10.0;
-    run.rule = "all pivot histories the tableau simplex produces (phase one inside into_tableau, then solve / solve_step_by_step / raw step) on every member of finite continuous LinearModel families plus degenerate specials (Beale, Klee-Minty, ties, dependent equalities); states = bit-exact tableaux; every transition is validated against the exact canonical tableau derived from the standard form and the state's basis; non-trivial = model for which a canonical start tableau exists".into();
+    run.rule = "all pivot histories the tableau simplex produces (phase one inside into_tableau, then solve / solve_step_by_step / raw step) on every member of finite continuous LinearModel families plus degenerate specials (Beale, Klee-Minty, ties, dependent equalities) and wide tableaux (20..70 variables, 1..3 rows, the improving columns at every interesting position incl. beyond column 32 and the last one); states = bit-exact tableaux; every transition is validated against the exact canonical tableau derived from the standard form and the state's basis; non-trivial = model for which a canonical start tableau exists".into();
     run.assume("exact rational model: canonical tableau B^-1[A|b] computed by Gauss-Jordan over BigRational from the standard form (hook 2) and the implementation's basis; conformance tolerance 1e-7 relative");
     run.assume("pivots observed through the verif_hooks pivot recorder in Tableau::pivot (all drivers share it)");
     run.assume("optimality of the final state judged with rooc's own 1e-5 tolerance on reduced costs; final value compared with the exact LP optimum at 1e-6");
@@ -584,6 +625,15 @@ pub fn run(mut run: Run) -> ! {
         run.family(fam.name, fam.size(), move |i, l| {
             let spec = f2.get(i);
             check_model(&spec, l);
+        });
+    }
+    {
+        let cases = std::sync::Arc::new(wide_cases());
+        let c2 = cases.clone();
+        run.family("TW-wide-tableaux", cases.len() as u64, move |i, l| {
+            let (n, m, p, q, max) = c2[i as usize];
+            l.count("wide-tableaux");
+            check_model(&wide_model(n, m, p, q, max), l);
         });
     }
     // continuous linear models as the compiler produces them (auxiliaries of relaxed lowerings,
